@@ -1,0 +1,27 @@
+//go:build verif
+
+package asm
+
+import "bytes"
+
+// Verification hooks (build tag verif): thin wrappers that expose the unexported
+// integer and string encoders so that they can be driven over their whole domain.
+
+// VerifWriteSize returns the encoding writeSize produces for n.
+func VerifWriteSize(n uint32) ([]byte, error) {
+	b := bytes.NewBuffer(nil)
+	_, err := writeSize(b, n)
+	return b.Bytes(), err
+}
+
+// VerifWriteSym returns the encoding writeSym produces for s.
+func VerifWriteSym(s string) ([]byte, error) {
+	b := bytes.NewBuffer(nil)
+	_, err := writeSym(b, s)
+	return b.Bytes(), err
+}
+
+// VerifNumSize returns numSize(n).
+func VerifNumSize(n uint32) int {
+	return numSize(n)
+}
